@@ -443,11 +443,20 @@ def _offsets(ctx, m):
             if "get_instructions" not in ast.unparse(lp.iter):
                 continue
             var = ast.unparse(lp.target)
-            incs = [n for n in ast.walk(lp) if isinstance(n, ast.AugAssign) and isinstance(n.op, ast.Add) and ast.unparse(n.value) == "%s.get_length()" % var]
+            want = "%s.get_length()" % var
+            incs = []
+            for n in ast.walk(lp):
+                if isinstance(n, ast.AugAssign) and isinstance(n.op, ast.Add) and ast.unparse(n.value) == want:
+                    incs.append(n)
+                elif isinstance(n, ast.Assign) and len(n.targets) == 1 and isinstance(n.value, ast.BinOp) and isinstance(n.value.op, ast.Add):
+                    t = ast.unparse(n.targets[0])
+                    l, r = ast.unparse(n.value.left), ast.unparse(n.value.right)
+                    if (l == t and r == want) or (r == t and l == want):
+                        incs.append(n)
             if not incs:
                 why = "offset is not advanced by %s.get_length()" % var
                 continue
-            acc = ast.unparse(incs[0].target)
+            acc = ast.unparse(incs[0].target if isinstance(incs[0], ast.AugAssign) else incs[0].targets[0])
             tests = [n for n in lp.body if isinstance(n, ast.If) and isinstance(n.test, ast.Compare) and isinstance(n.test.ops[0], ast.Eq) and acc in (ast.unparse(n.test.left), ast.unparse(n.test.comparators[0]))]
             if not tests:
                 why = "no `%s == off` test" % acc
@@ -458,3 +467,10 @@ def _offsets(ctx, m):
             ok = order_ok and init0
             why = "offset compared after being advanced, or not started at 0"
         ctx.check("offsets", "DCode.%s" % name, ok, f, "DCode.%s accumulator" % name, "DCode.%s does not walk instruction offsets as the sweep defines them: %s" % (name, why))
+
+
+MUTATION_TARGETS = [(DEX, "LinearSweepAlgorithm.get_instructions"), (DEX, "get_instruction_payload"),
+                    (DEX, "FillArrayData.__init__"), (DEX, "FillArrayData.get_length"), (DEX, "FillArrayData.get_raw"),
+                    (DEX, "SparseSwitch.__init__"), (DEX, "SparseSwitch.get_length"), (DEX, "SparseSwitch.get_raw"),
+                    (DEX, "PackedSwitch.__init__"), (DEX, "PackedSwitch.get_length"), (DEX, "PackedSwitch.get_raw"),
+                    (DEX, "DCode.off_to_pos"), (DEX, "DCode.get_ins_off")]
